@@ -5,6 +5,21 @@ HERE = os.path.dirname(os.path.dirname(os.path.abspath(__file__)))
 SETUP = ('/venv/bin/python -c "import hypothesis" 2>/dev/null || /venv/bin/pip install -q --no-index '
          '--find-links /opt/veriftools/wheels hypothesis')
 CHECKS = {
+ 'C14': dict(technique='Hypothesis RuleBasedStateMachine over read-only call histories (<=12 steps) with deep-snapshot, constant and fresh-import invariants after every step; call sequences replayed forwards/backwards in fresh interpreters',
+             text='A stateful machine applies drawn read-only operations with arbitrary options to one Document and checks after every step that the document, module constants and caller-owned arguments are unchanged and that the result equals the same call on a fresh import; interpreter-global state is probed by executing drawn sequences in two fresh processes in opposite orders.',
+             note='Trusted: kv/snapshot.py sees all Python-level state of the tree. Mutation that never changes an attribute or a result is invisible.', ref='4 C14'),
+ 'C15': dict(technique='Hypothesis-generated documents x drawn interval/direction; C09 model applied to the generator\'s abstract notes, grid conservation on the eKern export, before/after export of the source, inverse law',
+             text='The transposed document is compared sub-part by sub-part with the source; pitches against the independent interval model; the three classes the property designates (accidentals, chords, state of the source) are explored and tracked as findings by exact symptom.',
+             note='Trusted: kv/pitch.py (validated against kernpy.transpose by C09). **root spines are not generated.', ref='4 C15'),
+ 'C18': dict(technique='Hypothesis-generated token sequences per spine type (grammar-labelled structural corpus, kern non-structural tokens, free text, arbitrary strings, malformed tokens) with label-based expectations + differential against the **kern importer and a fresh importer; documents re-headed under two types',
+             text='Every token is imported by a long-lived importer of each non-kern type and compared with the labelled expectation, with a fresh importer and with the kern importer; whole documents are presented under two different headers and must give the same measure index and structure.',
+             note='Trusted: corpus labels from the grammar; own categories from the importers\' documentation (for **mxhm HARMONY or MHXM).', ref='4 C18'),
+ 'C19': dict(technique='Hypothesis-generated scores cut at every set of barline positions (exhaustive per document in the thorough tier) x 3 separator conventions; equality with the import of the joined text, pair arithmetic, C07 data-line oracle per pair',
+             text='Every cut of every generated score is concatenated and compared with the import of the joined text (deep snapshot and six exports); the returned pairs must be consecutive, end at the measure count and each address exactly its fragment.',
+             note='Trusted: kv/measures.py. A preamble-only first fragment is a known finding.', ref='4 C19'),
+ 'C20': dict(technique='Hypothesis-generated documents, renderings (LF/CRLF, final newline, non-ASCII, damaged cells), option sets and directory trees driven through a temporary directory; file path vs in-memory API and CLI (in-process + real subprocess) vs API differential, ekern/kern round trip',
+             text='load vs loads (deep snapshot, errors, exports), dump vs dumps byte-exact with repeated dumps to one path, CLI converters vs the API for single files and directory trees with/without -r, and the kern->ekern->kern->ekern round trip.',
+             note='Trusted: UTF-8 locale; the in-process CLI driver calls the same main() as python -m kernpy (a few real subprocess runs per check).', ref='4 C20'),
  'C07': dict(technique='Hypothesis-generated measure-structured scores x every (a,b) range + illegal shapes; measure model from barline rows, partition oracle, ValueError contract',
              text='All ranges of every generated score are exported and their data lines compared with the lines of the full export that the barline model assigns to the range; partition, iteration and the three rejection clauses are checked per document.',
              note='Trusted: kv/measures.py boundaries. kernpy\'s alternative numbering (an all-null stretch before the first barline counted as measure 1) is accepted and labelled. Bounded random search.', ref='4 C07'),
